@@ -36,15 +36,25 @@ theorem sqrt17_bounds : (412 / 100 : ℝ) < Real.sqrt 17 ∧ Real.sqrt 17 < (413
   · rw [Real.lt_sqrt (by norm_num)]; norm_num
   · rw [Real.sqrt_lt' (by norm_num)]; norm_num
 
-theorem poisson_witness :
-    ∃ lam u1 u2 : ℝ, 16 < lam ∧ CanonPos u1 ∧ CanonPos u2 ∧
-      ∃ k d', (Poisson.mk' lam).sample [u1, u2] = some (k, d', []) ∧ 2 ^ 31 ≤ k := by
-  refine ⟨17, 3 / 4, Real.exp (-18), by norm_num, ⟨by norm_num, by norm_num⟩,
-    ⟨Real.exp_pos _, Real.exp_lt_one_iff.mpr (by norm_num)⟩, ?_⟩
+/-- Gaussian branch, general form at ℝ: the count is ⌊x + ½⌋ clamped at 0, provided it fits the
+    32-bit result type -/
+theorem poisson_gauss_eval (lam : ℝ) (hl : 16 < lam) (s : List ℝ) (x : ℝ) (n' : Normal ℝ)
+    (rest : List ℝ) (hx : (Poisson.mk' lam).normal.sample s = some (x, n', rest)) :
+    (Poisson.mk' lam).sample s =
+      some (if 0 < x + 1 / 2 then castU32 (x + 1 / 2) else 0,
+            { (Poisson.mk' lam) with normal := n' }, rest) := by
   unfold Poisson.sample
-  have hle : ¬ (Num.le (Poisson.mk' (17 : ℝ)).lambda (lambdaThreshold : ℝ) = true) := by
-    unfold Poisson.mk' lambdaThreshold; dist_simp; norm_num
-  rw [if_neg hle, normal_eval_fresh _ rfl]
+  have hle : ¬ (Num.le (Poisson.mk' lam).lambda (lambdaThreshold : ℝ) = true) := by
+    unfold Poisson.mk' lambdaThreshold; dist_simp; exact not_le.mpr hl
+  rw [if_neg hle, hx]
+  simp only []
+  dist_simp
+
+/-- the witness: λ = 17, u₁ = 3/4, u₂ = e^{−18}: the normal sample x has −100 ≤ x + ½ ≤ −1 -/
+theorem poisson_witness_sample :
+    ∃ x n', (Poisson.mk' (17 : ℝ)).normal.sample [3 / 4, Real.exp (-18)] = some (x, n', []) ∧
+      -100 ≤ x + 1 / 2 ∧ x + 1 / 2 ≤ -1 := by
+  rw [normal_eval_fresh _ rfl]
   refine ⟨_, _, rfl, ?_⟩
   simp only [Poisson.mk']
   dist_simp
@@ -56,9 +66,9 @@ theorem poisson_witness :
   obtain ⟨hs1, hs2⟩ := sin_three_quarter_turn
   obtain ⟨hq1, hq2⟩ := sqrt17_bounds
   have hq0 : 0 < Real.sqrt 17 := by linarith
-  apply castU32_wrap
-  · have : (-(2 : ℝ) ^ 31) ≤ -100 := by norm_num
-    nlinarith
-  · nlinarith
+  constructor <;> nlinarith
+
+theorem witness_canon : CanonPos (3 / 4 : ℝ) ∧ CanonPos (Real.exp (-18)) :=
+  ⟨⟨by norm_num, by norm_num⟩, ⟨Real.exp_pos _, Real.exp_lt_one_iff.mpr (by norm_num)⟩⟩
 
 end CelerVerif.Dist
